@@ -422,7 +422,7 @@ def gen_config(rng, joint=None, small=True):
             lens[rng.randrange(ns)] += 16 * K
     else:
         lens = [W - 1 + rng.randint(14 * K, 40 * K)]
-    return {
+    cfg = {
         "joint": joint, "N": N, "W": W, "K": K, "lens": lens,
         "beta": rng.choice([0, 1, 5.0, 25.0, 200]), "lam": rng.choice([0.11, 0.05, 0.5, 0.0, 1.0]),
         "m": rng.choice([2, 3, 5]), "limit": rng.choice([1, 2, 3, 6, 15]),
@@ -430,6 +430,17 @@ def gen_config(rng, joint=None, small=True):
         "seed": rng.randrange(2 ** 31), "data_seed": rng.randrange(2 ** 31),
         "scale": 1.0, "regimes": rng.choice([2, 3, 4]),
     }
+    # rare dimensions every end-to-end check gets a share of (drawn from a generator of their own so that the main
+    # stream of choices — and with it every earlier corpus / replay — is unchanged)
+    r2 = pyrandom.Random(cfg["seed"] ^ 0x5EED)
+    if r2.random() < 0.10:
+        cfg["dtype"] = r2.choice(["float32", "int64", "int32"])       # caller-side dtype other than float64
+    if r2.random() < 0.10 and K >= 3:
+        cfg["completion"] = r2.choice(["reverse", "rotate", r2.randrange(1000)])   # solver tasks finish out of order
+    if r2.random() < 0.08:
+        cfg["eps"] = r2.choice([0.03, 0.08, 0.2])                      # a covariance floor that zeroes entries
+        cfg["lam"] = r2.choice([0.0, 0.01, 0.05])
+    return cfg
 
 
 def find_repopulating_config(rng, tries=40, joint=False):
